@@ -98,6 +98,9 @@ func (c *FnCtx) callCommon(call *ssa.CallCommon, v ssa.Value, pos token.Pos) []s
 	} else if call.IsInvoke() {
 		key = "iface:" + typeKey(call.Value.Type()) + "." + call.Method.Name()
 		con = c.eng.specs.Contracts[types.TypeString(types.Unalias(call.Value.Type()), nil)+"."+call.Method.Name()]
+		if con == nil {
+			con = c.eng.specs.Contracts["iface."+call.Method.Name()]
+		}
 	}
 	if con != nil {
 		c.usedContracts[key] = true
@@ -391,6 +394,8 @@ func (c *FnCtx) modFrame(con *Contract, env *specEnv) map[string][]string {
 					addRef(l, c.heapSort[l], a.t)
 				case "bigval":
 					addRef("BIG", "(Array Int Int)", a.t)
+				case "out":
+					addRef("GH_out", "(Array Int Str)", c.writerKey(a))
 				case "cell":
 					pt, ok := types.Unalias(a.ty).Underlying().(*types.Pointer)
 					if !ok {
@@ -1363,7 +1368,11 @@ func (e *Engine) callWrites(c *FnCtx, call *ssa.CallCommon, w map[string]bool) {
 	}
 	w["ALLOC"] = true
 	if call.IsInvoke() {
-		if con := e.specs.Contracts[types.TypeString(types.Unalias(call.Value.Type()), nil)+"."+call.Method.Name()]; con != nil {
+		con := e.specs.Contracts[types.TypeString(types.Unalias(call.Value.Type()), nil)+"."+call.Method.Name()]
+		if con == nil {
+			con = e.specs.Contracts["iface."+call.Method.Name()]
+		}
+		if con != nil {
 			if con.ModAll {
 				w["*"] = true
 			}
